@@ -124,8 +124,16 @@ def ite_leaves(t, conds=()):
     if a is not None and a[0] == "ite":
         yield from ite_leaves(a[2], conds + (a[1],))
         yield from ite_leaves(a[3], conds + (T.mk_not(a[1]),))
-    else:
-        yield conds, t
+        return
+    if a is None and not t.is_const():
+        # a conditional operand of a sum or product: (c ? x : y) + z  ==  c ? x + z : y + z
+        inner = sorted((x for x in t.atoms() if x[0] == "ite"), key=T.akey)
+        if inner:
+            it = inner[0]
+            for br, cnd in ((it[2], it[1]), (it[3], T.mk_not(it[1]))):
+                yield from ite_leaves(T.subst(t, lambda z: br if z == it else None), conds + (cnd,))
+            return
+    yield conds, t
 
 
 def is_cmp(t):
@@ -589,6 +597,21 @@ def deep_mentions(t, pred, loops, _seen=None):
 # element-wise view of a comprehension / generator (idiom independent)
 
 ELEM = atom(("sym", "element"))
+
+
+def bind(ev):
+    """{parameter name: argument term} of a call event whose callee is a repository function (positional and keyword arguments
+    alike; `self` skipped for methods and constructors)."""
+    fi = ev.d.get("fi")
+    out = dict(ev.d.get("kwargs") or ())
+    if fi is None:
+        return out
+    params = fi.params()
+    if params and params[0] in ("self", "cls") and ev.callee[0] not in ("static", "function", "closure"):
+        params = params[1:]
+    for p_, a_ in zip(params, ev.d.get("args") or ()):
+        out.setdefault(p_, a_)
+    return out
 
 
 def comp_view(t):
